@@ -134,3 +134,59 @@ def collapse_runs(t):
         if sum(k[1] for k in kids) == ln and kids[0][0] == off:
             kids = ['run']
     return [off, ln, types, labels, kids]
+
+# ---------------------------------------------------------------------------------------
+# dict stage
+# ---------------------------------------------------------------------------------------
+DICT_KEYS = ['type', 'name', 'attribs', 'att_attribs', 'num', 'heading', 'subheading', 'from', 'children', 'value']
+
+class ContractError(Exception):
+    pass
+
+def dict_to_sx(d):
+    """fail-closed decoder of the intermediate dict into the wire form of Base/Dict.v"""
+    if not isinstance(d, dict):
+        raise ContractError('node is not a dict: %r' % type(d).__name__)
+    for k in d:
+        if k not in DICT_KEYS:
+            raise ContractError('undocumented key %r' % k)
+    ty = d.get('type')
+    if ty == 'text':
+        if set(d) != {'type', 'value'} or not isinstance(d['value'], str):
+            raise ContractError('text node with keys %r' % sorted(d))
+        return ['T', d['value']]
+    if not isinstance(ty, str) or not isinstance(d.get('name'), str):
+        raise ContractError('node without type/name: %r' % sorted(d))
+    if 'value' in d:
+        raise ContractError('non-text node with a value')
+    def opt(key, f):
+        return [f(d[key])] if key in d else []
+    def attrs(a):
+        if not isinstance(a, dict) or not all(isinstance(k, str) and isinstance(v, str) for k, v in a.items()):
+            raise ContractError('attribs is not a dict of strings')
+        return [[k, v] for k, v in a.items()]
+    def lst(l):
+        if not isinstance(l, list):
+            raise ContractError('expected a list')
+        return [dict_to_sx(x) for x in l]
+    def s(x):
+        if not isinstance(x, str):
+            raise ContractError('expected a string')
+        return x
+    return ['N', ty, d['name'], opt('attribs', attrs), opt('att_attribs', attrs), opt('num', s),
+            opt('heading', lst), opt('subheading', lst), opt('from', lst), opt('children', lst)]
+
+def to_dict_stage(args):
+    """(rule, pre-parsed text) -> sx of tree.to_dict() | ['ERR', kind]"""
+    import sys
+    rule, text = args
+    sys.setrecursionlimit(20000)
+    try:
+        tree = parser().parse_with_failure(text, rule)
+        return dict_to_sx(tree.to_dict())
+    except ContractError as e:
+        return ['ERR', 'Contract: ' + str(e)]
+    except RecursionError:
+        return ['ERR', 'Recursion']
+    except Exception as e:
+        return ['ERR', exc_kind(e)]
